@@ -18,10 +18,13 @@ TEXT = {
                          "every user-provided constructor (aggregates that are always brace-initialised are listed as such)",
     "C10.no-statics": "no namespace-scope, class-static or function-local variable with static / thread storage that is not const / constexpr",
     "C10.copy-complete": "every user-provided copy / move constructor initialises every base and every member from the corresponding part of its argument",
+    "C10.output-defined": "a class that read-modify-writes (|=, &=, ^=, +=, -=) storage reached through a reference member bound by its constructor "
+                          "(an output buffer handed in by the caller) must clear that storage in every constructor that binds the reference: "
+                          "otherwise the answer depends on what the caller's memory held before (BitWriteStreamT / SerialBuffer)",
     "C10.rebind": "a reference / pointer member bound to a sub-object of the same complete object (static_cast<B&>(*this) handed down a constructor chain; "
                   "&member[...] stored into another member) requires a user-provided copy constructor that re-binds it",
 }
-MIN_INSTANCES = {"C10.base-order": 2, "C10.definite-init": 30, "C10.no-statics": 1, "C10.copy-complete": 2, "C10.rebind": 1}
+MIN_INSTANCES = {"C10.output-defined": 1, "C10.base-order": 2, "C10.definite-init": 30, "C10.no-statics": 1, "C10.copy-complete": 2, "C10.rebind": 1}
 
 # aggregates without constructors whose members are always given at the (brace) construction site — confirmed by reading
 BRACE_AGGREGATES = {"Request": "struct Request {type, index}: always constructed as Request{type, index} / {type, index}",
@@ -41,6 +44,7 @@ def check(ctx, F):
     check_statics(ctx, F)
     check_copy_complete(ctx, F)
     check_rebind(ctx, F)
+    check_output_defined(ctx, F)
 
 
 def reachable(F, fid, limit=200000):
@@ -118,6 +122,47 @@ def check_base_order(ctx, F):
                                       "the constructor hands base %s a reference to the later-initialised base %s, and that base's constructor chain can call %s "
                                       "on it before it is constructed (first activation inside the constructor): behaviour depends on what the storage held before" % (
                                           (F.type(i["tid"]) or {}).get("tmpl"), rt.get("tmpl") or rt.get("name"), sorted(set(uses))[:3]), {})
+
+
+def check_output_defined(ctx, F):
+    from ..ir import sym_paths
+    for t in F.types:
+        if not t.get("complete") or t.get("dependent") or not t.get("inroots"):
+            continue
+        refs = [f["n"] for f in t.get("fields", []) if f.get("ref") and f.get("n") and "const " not in (f.get("t") or "").split("&")[0]]
+        if not refs:
+            continue
+        rmw = {}
+        for fid, b in F.bodies.items():
+            if not b["inst"] or b.get("tid") != t["id"] or b.get("kind") in ("ctor", "dtor"):
+                continue
+            for p in sym_paths(F, fid, 1):
+                ctx.paths += 1
+                for ev in p:
+                    if ev[0] == "write" and (ev[1].get("op") or "=") != "=":
+                        for r in refs:
+                            if ev[2].startswith("this.%s." % r) or ev[2].startswith("this.%s[" % r):
+                                rmw.setdefault(r, set()).add("%s: %s %s" % (b["name"], ev[2][:60], ev[1].get("op")))
+        for r, sites in sorted(rmw.items()):
+            name = t.get("tmpl") or t["name"]
+            site = "%s::%s" % (name, r)
+            ctors = [c for c in t.get("ctors", []) if not c.get("copy") and not c.get("move") and F.body(c["f"]) is not None]
+            ctx.instance("C10.output-defined", site, {"record": name, "reference_member": r, "read_modify_writes": sorted(sites)[:4], "constructors": len(ctors)})
+            for c in ctors:
+                b = F.body(c["f"])
+                binds = any(i.get("member") == r for i in (b.get("inits") or []))
+                if not binds:
+                    continue
+                cleared = False
+                for x in walk(b.get("body") or {}):
+                    if x.get("k") == "call" and "f" in x and F.fn(x["f"])["name"] in ("clear", "reset", "fill"):
+                        o = strip(x.get("obj") or {})
+                        if o.get("k") == "mem" and o.get("n") == r:
+                            cleared = True
+                if not cleared:
+                    ctx.violation("C10.output-defined", site, "%s::%s (%s)" % (name, name, F.floc(c["f"])),
+                                  "%s read-modify-writes the caller's storage behind the reference member `%s` (%s) but its constructor does not clear it: "
+                                  "the result depends on the previous content of that memory" % (name, r, sorted(sites)[0]), {})
 
 
 def scalar_field(f):
